@@ -31,6 +31,8 @@ Definition hinfo (m : N) : minfo :=
   (* trait HD: the hidden-API form (no `api=`): no clause can mention its methods *)
   | 36 => mk_info "HD" "hreq" false true true
   | 37 => mk_info "HD" "hprov" true false true
+  (* DB::db(a: A8): the argument's Debug impl counts its invocations *)
+  | 40 => mk_info "DB" "db" false true true
   (* R1::get<u8>, R2::get<u8>: same-named method-generic methods of two traits in one module *)
   | 38 => mk_info "R1" "get" false false true
   | 39 => mk_info "R2" "get" false false true
@@ -361,6 +363,17 @@ Definition matcher_trace (cfg : config) (s : state) (m a : N) : list (N * bool) 
     end
   end.
 
+(* how often the Debug impl of the call's argument runs: once when the call ends in an error whose message renders the call (the
+   error value holds the rendering: src/eval.rs fn_call() -> debug_inputs()), never otherwise - not for a successful response, not
+   for CannotUnmock / NoDefaultImpl, which only name the method *)
+Definition renders_call (e : mock_error) : bool :=
+  match e with
+  | ENoMockImplementation _ | ENoMatcherFunction _ _ | ENoMatchingCallPatterns _ | ENoOutputAvailable _ _
+  | ECallOrderNotMatched _ _ _ | EInputsNotMatchedInCallOrder _ _ _ | ECannotReturnValueMoreThanOnce _ _ | EExplicitPanic _ _ _ => true
+  | _ => false
+  end.
+Definition debug_runs (act : action) : N := match act with ActPanic e => if renders_call e then 1 else 0 | _ => 0 end.
+
 Definition show_trace (t : list (N * bool)) : string :=
   " M[" ++ join "," (map (fun '(d, diag) => dec d ++ (if diag : bool then "d" else "")) t) ++ "]".
 
@@ -386,7 +399,8 @@ Definition step_core (w : world) (e : event) : world * string :=
       | Some s' => (set_state w s', "P:user:matcher")
       | None =>
         let '(s', act) := call hinfo N haccepts hdebug (w_cfg w) (w_state w) m a in
-        (after_call w i it s' act, show_call w m a act ++ show_trace (matcher_trace (w_cfg w) (w_state w) m a))
+        (after_call w i it s' act, show_call w m a act ++ show_trace (matcher_trace (w_cfg w) (w_state w) m a)
+                                   ++ (if m =? 40 then " D" ++ dec (debug_runs act) else ""))
       end
     end
   | BCallOwn i m a =>
